@@ -59,6 +59,9 @@ func isSpace(c byte) bool {
 }
 
 func doIndent(dst, src []byte, prefix, indentStr string, escape bool) ([]byte, error) {
+	if err := checkNestingDepth(src); err != nil {
+		return nil, err
+	}
 	buf, cursor, err := indentValue(dst, src, 0, 0, []byte(prefix), []byte(indentStr), escape)
 	if err != nil {
 		return nil, err
